@@ -67,7 +67,8 @@ def effectsCreateIfNotExists : List Bytes := [b!"os.Stat", b!"os.Create"]
 /-- C06: the decision table of util/compress.go as the specification reads it: every `return` of
     acceptsEncodingFromString, GetRecompression, fallbackCompressionWithDefault and
     ContentEncodingFromCompressionType with the conditions / case labels leading to it, in
-    source order (the cell `acceptsGzip` x "br" => Add Brotli is finding C06-a) -/
+    source order (the cell `acceptsGzip` x "br" passes the origin's coding through: rrrouter has
+    no Brotli decoder; it used to add Brotli on top, the former finding C06-a, repaired) -/
 def recompressTable : List Bytes := [
   b!"acceptsEncodingFromString: if strings.Contains(s,\";\") => acceptsBrokenClient",
   b!"acceptsEncodingFromString: elif strings.Contains(s,\"br\") => acceptsBrotli",
@@ -77,7 +78,7 @@ def recompressTable : List Bytes := [
   b!"GetRecompression: switch acceptsEncodingFromString(acceptEncoding) case acceptsBrotli / switch contentEncoding case \"gzip\" => Recompression{Add:CompressionTypeBrotli,Remove:CompressionTypeGzip}",
   b!"GetRecompression: switch acceptsEncodingFromString(acceptEncoding) case acceptsBrotli / switch contentEncoding default => fallbackCompressionWithDefault(contentEncoding,contentType,CompressionTypeBrotli)",
   b!"GetRecompression: switch acceptsEncodingFromString(acceptEncoding) case acceptsGzip / switch contentEncoding case \"gzip\" => Recompression{Add:CompressionTypeNone,Remove:CompressionTypeNone}",
-  b!"GetRecompression: switch acceptsEncodingFromString(acceptEncoding) case acceptsGzip / switch contentEncoding case \"br\" => Recompression{Add:CompressionTypeBrotli,Remove:CompressionTypeNone}",
+  b!"GetRecompression: switch acceptsEncodingFromString(acceptEncoding) case acceptsGzip / switch contentEncoding case \"br\" => Recompression{Add:CompressionTypeNone,Remove:CompressionTypeNone}",
   b!"GetRecompression: switch acceptsEncodingFromString(acceptEncoding) case acceptsGzip / switch contentEncoding default => fallbackCompressionWithDefault(contentEncoding,contentType,CompressionTypeGzip)",
   b!"GetRecompression: switch acceptsEncodingFromString(acceptEncoding) case acceptsBrokenClient / if (contentEncoding==\"gzip\") => Recompression{Add:CompressionTypeNone,Remove:CompressionTypeGzip}",
   b!"GetRecompression: switch acceptsEncodingFromString(acceptEncoding) case acceptsBrokenClient => Recompression{Add:CompressionTypeNone,Remove:CompressionTypeNone}",
